@@ -194,6 +194,9 @@ func validInfo(cs *drv.Case, order string) []byte {
 			return ref.TokenKey // the ACL-token key travelling as an ordinary string entry
 		case 1:
 			return "rpc_transit_gdpr-token"
+		case 2, 3: // the keys the framework itself uses (literals, not the library's constants) and near misses
+			k := []string{"isn", "rip", "tc", "ti", "pcs", "pce", "pss", "prs", "pre", "crrst", "K_ProcessAtTime", "pr", "pree", "is"}
+			return k[r.Intn(len(k))]
 		}
 		return str()
 	}
